@@ -39,6 +39,23 @@ FormsV(c, e) ==
     IF {e.forms[k].form : k \in DOMAIN e.forms} # RegDataForms THEN "DataForms"
     ELSE FirstBad([k \in DOMAIN e.forms |-> FormRunV(c, e, e.forms[k])])
 
+\* the SAME estimator object fitted again (after set_params(reg_W=...)) on other data of the same shapes: what it
+\* exposes and what it predicts must be those of the new fit -- nothing may survive from the first one
+RefitV(c, e) ==
+    LET r == e.refit IN
+    IF r.raised THEN "RefitRaised"
+    ELSE IF ~(IsTens(r.weight) /\ r.weight.shape = WeightShape(c) /\ IsTens(r.vec) /\ IsTens(r.dense) /\ IsTens(r.pred) /\ IsTens(r.x)) THEN "Shapes"
+    ELSE IF ~(AllFin(r.weight) /\ AllFin(r.vec) /\ AllFin(r.dense) /\ AllFin(r.pred)) THEN "Finite"
+    ELSE IF ~(FeatShape(r.x) = c.xs /\ \A n \in 1..Len(r.x.data) : AbsI(r.x.data[n]) <= MaxX) THEN "InDomain"
+    ELSE IF ~PredictRepresentable(r.x, r.weight) THEN "Unrepresentable"
+    ELSE IF r.pred.shape # PredictShape(r.x, r.weight) THEN "PredictShape"
+    ELSE With(Predict(r.x, r.weight), LAMBDA P :
+         LET Os == Size(OutDims(r.x, r.weight)) IN
+         IF \E m \in 1..Len(P.data) : AbsI(r.pred.data[m] - P.data[m]) > PredTol(r.x, ((m - 1) \div Os) + 1) THEN "RefitPredict"
+         ELSE IF ~Close(r.dense, r.weight, EqTol) THEN "RefitWeightIsDense"
+         ELSE IF ~(r.vec.shape = <<Size(r.weight.shape)>> /\ \A n \in 1..Len(r.vec.data) : AbsI(r.vec.data[n] - r.weight.data[n]) <= EqTol) THEN "RefitVecW"
+         ELSE "ok")
+
 RegV(e) ==
     LET c == e.cfg IN
     IF ~ValidReg(c) THEN "InDomain"
@@ -56,6 +73,7 @@ RegV(e) ==
          LET Os == Size(OutDims(e.xnew, e.weight)) IN
          IF \E m \in 1..Len(P.data) : AbsI(e.pred.data[m] - P.data[m]) > PredTol(e.xnew, ((m - 1) \div Os) + 1) THEN "Predict"
          ELSE IF FormsV(c, e) # "ok" THEN FormsV(c, e)
+         ELSE IF RefitV(c, e) # "ok" THEN RefitV(c, e)
          ELSE IF ~Close(e.dense, e.weight, EqTol) THEN "WeightIsDense"
          ELSE IF ~(e.vec.shape = <<Size(e.weight.shape)>> /\ \A n \in 1..Len(e.vec.data) : AbsI(e.vec.data[n] - e.weight.data[n]) <= EqTol) THEN "VecW"
          ELSE IF ~FactorsOK(e.factors, WeightShape(c), c.model) THEN "FactorShapes"
@@ -103,6 +121,19 @@ PlsExtraV(c, e) ==
                                           /\ AllFin(x.forms[k].transform) /\ AllFin(x.forms[k].pred)) THEN "Shapes"
     ELSE IF \E k \in DOMAIN x.forms : ~Close(x.forms[k].transform, e.base.scores, PlsTol) THEN "TransformDataForm"
     ELSE IF \E k \in DOMAIN x.forms : ~Close(x.forms[k].pred, e.base.pred, PlsTol) THEN "PredictDataForm"
+    \* a fit that the estimator rejects (first modes of X and Y differ / Y of order 3: documented ValueError) must leave the
+    \* fitted model untouched: transform and predict still agree with the exposed attributes
+    ELSE IF ~(x.reject.raised /\ x.reject.exc = "ValueError") THEN "BadFitNotRejected"
+    ELSE IF ~(IsMat(x.reject.transform, c.n, c.nc) /\ IsMat(x.reject.pred, e.mtest, YCols(c))
+              /\ AllFin(x.reject.transform) /\ AllFin(x.reject.pred)) THEN "Shapes"
+    ELSE IF ~Close(x.reject.transform, e.base.scores, PlsTol) \/ ~Close(x.reject.pred, e.base.pred, PlsTol) THEN "RejectedFitChangedModel"
+    \* the same object fitted again on the permuted data is the model a fresh estimator learns from that data
+    ELSE IF x.refit.raised THEN "RefitRaised"
+    ELSE IF ~FitShapesOK(c, x.refit, e.mtest) THEN "Shapes"
+    ELSE IF ~(AllFin(x.refit.scores) /\ AllFin(x.refit.transform) /\ AllFin(x.refit.yload) /\ AllFin(x.refit.pred)
+              /\ \A m \in 1..Len(c.xs) : AllFin(x.refit.loads[m])) THEN "Finite"
+    ELSE IF ~(SameLoads(c, x.refit, e.permfit) /\ Close(x.refit.scores, e.permfit.scores, PlsTol)
+              /\ Close(x.refit.transform, e.permfit.transform, PlsTol) /\ Close(x.refit.pred, e.permfit.pred, PlsTol)) THEN "RefitIndependent"
     ELSE "ok"
 
 PlsV(e) ==
